@@ -185,6 +185,8 @@ def predict(st, call):
     fam = call["fam"]
     if call.get("badid"):
         return Outcome([E["EBADID"]], "invalid ncid comes first in every documented precedence list [EP]")
+    if fam == "helper":
+        return Outcome(OK, "harness helper acting on a second file (not the file whose mode is modelled)")
     ro, mode = (not st.rw), st.mode
     ve = _varerr(call)
 
